@@ -17,14 +17,14 @@ type AddedCriterion struct {
 func (c *CriteriaConcealment) addCriterion(
 	props *model.BiasProps,
 	parsedProps CriteriaConcealmentParams,
-	originalParams, resParams *model.DecisionMakingParams,
+	_, resParams *model.DecisionMakingParams,
 	listener *model.BiasListener,
 	bounding *criteria_bounding.CriteriaBounding,
 ) (*model.DecisionMakingParams, []AddedCriterion) {
 	generator := c.generatorSource(parsedProps.RandomSeed)
-	criterionBase := c.generateNewCriterionBase(listener, parsedProps.NewCriterionScaling, props, originalParams, resParams)
+	criterionBase := c.generateNewCriterionBase(listener, parsedProps.NewCriterionScaling, props, resParams)
 	addResult := generateCriterionValuesForAlternatives(criterionBase.newCriterion, resParams, generator, bounding)
-	addedCriterionParams := (*listener).OnCriterionAdded(criterionBase.newCriterion, criterionBase.referenceCriterion, originalParams.MethodParameters, generator)
+	addedCriterionParams := (*listener).OnCriterionAdded(criterionBase.newCriterion, criterionBase.referenceCriterion, resParams.MethodParameters, generator)
 	finalParams := (*listener).Merge(resParams.MethodParameters, addedCriterionParams)
 	newCriteria := resParams.Criteria.Add(criterionBase.newCriterion)
 	return &model.DecisionMakingParams{
@@ -47,12 +47,12 @@ func (c *CriteriaConcealment) generateNewCriterionBase(
 	listener *model.BiasListener,
 	scaling float64,
 	props *model.BiasProps,
-	originalParams, currentParams *model.DecisionMakingParams,
+	currentParams *model.DecisionMakingParams,
 ) newCriterionBase {
 	refCriterionProvider := c.referenceCriterionManager.ForParams(props)
-	rankedCriteria := (*listener).RankCriteriaAscending(originalParams)
+	rankedCriteria := (*listener).RankCriteriaAscending(currentParams)
 	referenceCriterion := refCriterionProvider.Provide(rankedCriteria)
-	valRange := getCriterionValueRange(originalParams, referenceCriterion, scaling)
+	valRange := getCriterionValueRange(currentParams, referenceCriterion, scaling)
 	newCriterion := model.Criterion{
 		Id:          newConcealedCriterionName(&currentParams.Criteria),
 		Type:        model.Gain,
@@ -108,8 +108,8 @@ func assignNewCriterionToAlternatives(
 	return sortedAlternatives, alternativesValues
 }
 
-func getCriterionValueRange(originalParams *model.DecisionMakingParams, referenceCriterion *model.Criterion, scaling float64) *utils.ValueRange {
-	allAlternatives := originalParams.AllAlternatives()
+func getCriterionValueRange(params *model.DecisionMakingParams, referenceCriterion *model.Criterion, scaling float64) *utils.ValueRange {
+	allAlternatives := params.AllAlternatives()
 	valRange := model.CriteriaValuesRange(&allAlternatives, referenceCriterion).ScaleEqually(scaling)
 	return valRange
 }
